@@ -53,6 +53,12 @@ fn transforms() -> Vec<(&'static str, Matrix4<f32>)> {
             "general",
             Matrix4::new_rotation(Vector3::new(0.3, -0.2, 0.5)) * Matrix4::new_nonuniform_scaling(&Vector3::new(1.2, 0.8, 1.0)),
         ),
+        // bottom row (0, 0, 0, 2): uniform scale kept in the homogeneous coordinate
+        ("homogeneous scale", {
+            let mut m = Matrix4::new_translation(&Vector3::new(0.0, 0.25, -0.5));
+            m *= 2.0;
+            m
+        }),
         // camera perspective as the CLI demo builds it: bottom row (0, 0, p, 1)
         ("perspective", {
             let mut m = Matrix4::identity();
